@@ -41,7 +41,7 @@ def budget(tier):
 @st.composite
 def strategy_(draw, tier):
     k = draw(st.integers(1, 3))
-    mols = [draw(gens.mols(tier, families=("er", "skeleton", "chem", "er"))) for _ in range(k)]
+    mols = [draw(gens.mols(tier, families=("er", "skeleton", "chem", "er", "multi"))) for _ in range(k)]
     prods = [draw(st.sampled_from(["constructor", "reader", "parser"])) for _ in range(k)]
     ops = draw(st.lists(st.tuples(st.sampled_from(["canon", "ser", "pipe", "canon", "ser"]), st.integers(0, 7)), min_size=1, max_size=12))
     return {"mols": mols, "producers": prods, "ops": [list(o) for o in ops], "orders": [draw(gens.perms(len(m["atoms"]))) for m in mols]}
